@@ -1,13 +1,13 @@
 (* Re-checked on EVERY run against the definitions REGENERATED from /repo's current source by gen/c08_py2coq.py (Gen_c08_forward.v):
    the index / stacking logic of the tomography forward model, as written in Python today, equals the hand-written model of
-   Model/C08_Forward.v about which the property theorems (Props/C08.v) are stated. Translated (28 definitions):
+   Model/C08_Forward.v about which the property theorems (Props/C08.v) are stated. Translated (29 definitions):
      num_variables formulas of StandardQst / Povmt / Qpt / Qmpt.__init__ ; num_outcomes of the four classes (schedule -> tester lookup) ;
      StandardQst._set_coeffs, StandardPovmt._set_coeffs, calc_c_qpt, StandardQpt._set_coeffs, cqpt_to_cqmpt, StandardQmpt._set_coeffs
      (dictionary keys (schedule_index, x), tester lookup, zero-block offsets, slices) ; calc_matA, calc_vecB (sorted stacking) ;
      the split of calc_prob_dists and the slice of calc_fisher_matrix (callees truncate_and_normalize / matrix_util.calc_fisher_matrix
      are uninterpreted parameters) ; the loop of Experiment.calc_prob_dists (calc_prob_dist uninterpreted) ;
      Experiment.calc_prob_dist (object lookup + reverse-order composition, compose_qoperations uninterpreted) ; _get_target_index of the four
-     classes ; StandardQTomography.calc_prob_dist ; get_coeffs_0th_vec / get_coeffs_1st_mat ; is_fullrank_matA (np.linalg.matrix_rank uninterpreted).
+     classes ; StandardQTomography.calc_prob_dist ; get_coeffs_0th_vec / get_coeffs_1st_mat ; is_all_same_composite_systems (CompositeSystem.__eq__ uninterpreted) ; is_fullrank_matA (np.linalg.matrix_rank uninterpreted).
    Schedules are lists of item indices ([enc_qst], [enc_povmt], [enc3] in Proofs/C08_NpSem.v). The last four theorems transport the
    forward-model property to the regenerated code: matA / vecB computed by the regenerated functions predict the Born statistics.
    A behaviour-changing edit of a translated function makes this file fail to compile: the check then reports the tie broken and its
@@ -348,6 +348,15 @@ Theorem gen_get_coeffs_1st_mat_eq : forall (d : list (zkey * F)) (g : Z -> Z -> 
   gen_get_coeffs_1st_mat F d g j = map (g j) (keys_of_schedule d j).
 Proof. intros d g j. unfold gen_get_coeffs_1st_mat, keys_of_schedule, np_vstack1. cbv zeta. rewrite (fold_left_snoc (g j)). reflexivity. Qed.
 
+(* ---- is_all_same_composite_systems (the constructors' validity test): true exactly when every later tester's CompositeSystem is EQUAL
+   (CompositeSystem.__eq__, the uninterpreted [same]) to the first tester's -- equality, not object identity; any number of testers *)
+Theorem gen_is_all_same_composite_systems_eq : forall (same : Z -> Z -> bool) (targets : list Z),
+  gen_is_all_same_composite_systems F same targets = match targets with [] => true | t0 :: rest => forallb (same t0) rest end.
+Proof. intros same targets. unfold gen_is_all_same_composite_systems. destruct targets as [|t0 [|t1 rest]]; [reflexivity|reflexivity|].
+  assert ((zlen (t0 :: t1 :: rest) <=? 1)%Z = false) as -> by (apply Z.leb_gt; unfold zlen; cbn [length]; lia).
+  change 1%Z with (Z.of_nat 1). rewrite py_slice_from. cbn [skipn]. change (znth 0%Z (t0 :: t1 :: rest) 0%Z) with t0.
+  generalize (t1 :: rest) as l. intros l. induction l as [|x l IH]; [reflexivity|]. cbn [map forallb]. now rewrite IH. Qed.
+
 (* ---- the property, about the code as regenerated: the stacked coefficients computed by the regenerated _set_coeffs + calc_matA /
    calc_vecB predict, for EVERY variable vector, the Born distribution of every schedule's circuit *)
 Theorem gen_qst_forward : forall d para sd (povms : list (list (lvec F))) (scheds : list nat) (v : rvec F),
@@ -406,6 +415,7 @@ Print Assumptions gen_calc_prob_dist_eq.
 Print Assumptions gen_is_fullrank_matA_eq.
 Print Assumptions gen_get_coeffs_0th_vec_eq.
 Print Assumptions gen_get_coeffs_1st_mat_eq.
+Print Assumptions gen_is_all_same_composite_systems_eq.
 Print Assumptions gen_qst_forward.
 Print Assumptions gen_povmt_forward.
 Print Assumptions gen_qpt_forward.
